@@ -1,7 +1,7 @@
 """C20: configuration rules — debug-only regions are pure, unchecked hints are audited,
 per-body MIR is identical across feature sets, debug/nodebug differ only inside debug regions."""
 import hashlib, json, re
-from facts import callee_name, strip_refs, is_debug_only_switch
+from facts import callee_name, strip_refs, is_debug_only_switch, const_switch_target
 from guards import guards_at, describe, anchors, callers_of, anchor_callers
 
 PANIC_PREFIX = ("core::panicking::", "core::fmt::Arguments", "core::fmt::rt::")
@@ -24,6 +24,32 @@ UNCHECKED_TABLE = {
     ("repr::heap_buffer::HeapBuffer::realloc", "core::ptr::non_null::NonNull::<T>::new_unchecked"): "after the null test",
     ("repr::static_buffer::StaticBuffer::new", "core::ptr::non_null::NonNull::<T>::new_unchecked"): "pointer of a &'static str",
 }
+
+
+# unchecked sub-view constructors with one and the same precondition ("the range lies inside the
+# view / allocation"): replacing one spelling by another in an audited function changes nothing
+FAMILY = {
+    "core::slice::<impl [T]>::get_unchecked_mut": "raw-subview-mut", "core::str::<impl str>::get_unchecked_mut": "raw-subview-mut", "core::slice::raw::from_raw_parts_mut": "raw-subview-mut",
+    "core::slice::<impl [T]>::get_unchecked": "raw-subview", "core::str::<impl str>::get_unchecked": "raw-subview", "core::slice::raw::from_raw_parts": "raw-subview",
+}
+FAMILY_TABLE = {
+    ("repr::Repr::retain", "raw-subview-mut"): "dst slice dst_idx..dst_idx+ch_len inside the unique str view (dst_idx <= src_idx, src_idx + ch_len <= len)",
+    ("repr::Repr::retain", "raw-subview"): "src_idx..len within the text",
+    ("repr::Repr::as_str_mut", "raw-subview-mut"): "..len within capacity",
+    ("repr::Repr::as_slice_mut", "raw-subview-mut"): "the whole capacity of the unique / inline buffer",
+    ("repr::Repr::truncate_unchecked", "raw-subview"): "..new_len within the text, on a char boundary (caller contract)",
+    ("repr::Repr::as_bytes", "raw-subview"): "(ptr, len) of the storage",
+    ("repr::heap_buffer::HeapBuffer::as_str", "raw-subview"): "(ptr, len) of the heap buffer",
+}
+
+
+def _audited(path, nme):
+    if (path, nme) in UNCHECKED_TABLE:
+        return UNCHECKED_TABLE[(path, nme)]
+    fam = FAMILY.get(nme)
+    if fam and (path, fam) in FAMILY_TABLE:
+        return FAMILY_TABLE[(path, fam)]
+    return None
 
 
 def rule_debug_regions(ctx, rule="C20-debugpure"):
@@ -80,15 +106,15 @@ def rule_unchecked_sites(ctx, rule="C20-unchecked"):
             if "unchecked" in leaf and not leaf.startswith("unchecked_") and not t.get("local_key"):
                 found.add((path, nme))
                 key = (path, nme)
-                audited = key in UNCHECKED_TABLE
+                audited = _audited(path, nme) is not None
                 lifted = False
                 if not audited and (path not in anchors(F) or b.j["kind"] == "closure"):
                     # code moved into a private helper / closure: the site is audited if every anchor
                     # function it is reached from had the same hint audited (its justification moved with it)
                     acs = anchor_callers(F, path)
-                    audited = bool(acs) and all((a, nme) in UNCHECKED_TABLE for a in acs)
+                    audited = bool(acs) and all(_audited(a, nme) is not None for a in acs)
                     lifted = audited
-                ctx.ob(rule, path, "audited:" + nme.rsplit("::", 1)[-1], audited, how=UNCHECKED_TABLE.get(key, "moved into a helper called only from audited functions"), line=t.get("line", 0),
+                ctx.ob(rule, path, "audited:" + nme.rsplit("::", 1)[-1], audited, how=_audited(path, nme) or "moved into a helper called only from audited functions", line=t.get("line", 0),
                        detail="new `%s` site in %s is not in the audited table: its precondition holds only by an argument nobody wrote down; in release builds a violated hint is undefined behaviour" % (nme, path))
                 for a in ([path] if path in anchors(F) and b.j["kind"] != "closure" else sorted(anchor_callers(F, path))):
                     req = REQUIRED_GUARD.get((a, nme))
@@ -104,12 +130,12 @@ def rule_unchecked_sites(ctx, rule="C20-unchecked"):
                     gs = guards_at(b, bb)
                     errs = [g for g in gs if g[0] == "cls" and g[2] == "Err"]
                     what = [describe(b, g[3]) for g in errs]
-                    ok = any(("layout_from_capacity(*repr::heap_buffer::HeapBuffer::header(p1).1)" in w) or ("TextLen::new(p2)" in w) for w in what)
+                    ok = any((re.search(r"layout_from_capacity\(HDR\(p1\)\.\d\)", w)) or ("TextLen::new(p2)" in w) for w in what)
                     if not ok and path not in anchors(F):
                         # helper taking the capacity as a parameter: every caller passes header().capacity
                         cs = callers_of(F, path)
                         ok = bool(cs) and any("layout_from_capacity(p" in w for w in what) and all(
-                            any(describe(cb, cb.origin_operand(a)) == "*repr::heap_buffer::HeapBuffer::header(p1).1" for a in ct["args"]) for cb, cbb, ct in cs)
+                            any(describe(cb, cb.origin_operand(a)) in ("HDR(p1).0", "HDR(p1).1") for a in ct["args"]) for cb, cbb, ct in cs)
                     ctx.ob(rule, path, "unreachable-on-Err-edge", ok, how="on the Err arm of %s" % what, line=t.get("line", 0),
                            detail="unreachable_unchecked is not on the Err arm of layout_from_capacity(header().capacity) / TextLen::new(len): %s" % what)
                     # debug twin: a debug-only panic on the same edge
@@ -161,8 +187,11 @@ def skeleton(b):
     come and go with -Cdebug-assertions and differ per configuration) are not part of it."""
     dbg = b.debug_only_blocks()
     calls, stores, aggs, switches = [], 0, [], 0
+    # only code that exists in this configuration: arms cut off by a constant configuration
+    # predicate (cfg!(feature = ..)) are not reachable (Body.succ prunes them)
+    live = b.reachable(0)
     for i, blk in enumerate(b.blocks):
-        if i in dbg:
+        if i in dbg or i not in live:
             continue
         for s in blk["stmts"]:
             if s["k"] == "assign":
@@ -176,7 +205,7 @@ def skeleton(b):
             if n.startswith("core::panicking::panic_nounwind") or n.startswith("core::ub_checks") or "precondition_check" in n:
                 continue
             calls.append(n + "<" + ",".join(t.get("generic_args", [])) + ">")
-        elif t["k"] == "switch" and not is_debug_only_switch(b, i):
+        elif t["k"] == "switch" and not is_debug_only_switch(b, i) and const_switch_target(b, i) is None:
             switches += 1
     return hashlib.sha256(json.dumps([sorted(calls), stores, sorted(aggs), switches]).encode()).hexdigest()[:16]
 
